@@ -32,12 +32,16 @@ def known_match(known, prop, key):
 def run_drivers(prop, tier, seed, workdir, only=None):
     """bounded stand-ins: run on the real code under /venv/bin/python; each returns a JSON report"""
     from drivers import REGISTRY
-    reports = []
-    for name in REGISTRY.get(prop, []):
-        if only and only != name: continue
-        out = os.path.join(workdir, f'driver-{name}.json')
+    from concurrent.futures import ThreadPoolExecutor
+    names = [n for n in REGISTRY.get(prop, []) if not only or only == n]
+    SHARDS = dict(docops=4, docprops=4, store_small_scope=3, special=2, comments=2)       # slow drivers run as several processes over disjoint case sets
+    jobs = [(n, i, SHARDS.get(n, 1)) for n in names for i in range(SHARDS.get(n, 1))]
+    def one(job):
+        name, shard, nshards = job
+        out = os.path.join(workdir, f'driver-{name}-{shard}.json')
         if os.path.exists(out): os.remove(out)
         env = dict(os.environ, PYTHONPATH=f'{REPO}:{VERIF}', PYTHONHASHSEED='0')
+        if nshards > 1: env['VERIF_SHARD'] = f'{shard}/{nshards}'
         t0 = time.time()
         p = subprocess.run(['/venv/bin/python', '-m', f'drivers.{name}', '--prop', prop, '--tier', tier, '--seed', str(seed), '--out', out],
                            cwd=VERIF, env=env, capture_output=True, text=True)
@@ -46,8 +50,25 @@ def run_drivers(prop, tier, seed, workdir, only=None):
         except Exception:
             rep = dict(driver=name, crashed=True, detail=(p.stdout + p.stderr)[-3000:], failures=[], evaluations=0, distinct_nontrivial=0)
         rep['driver'] = name; rep['wall_s'] = round(time.time() - t0, 2)
-        reports.append(rep)
-    return reports
+        return rep
+    # the drivers are independent single-threaded processes (own seed, own report file): run them side by side, report in registry order
+    with ThreadPoolExecutor(max_workers=max(1, min(len(jobs), 10))) as pool:
+        parts = list(pool.map(one, jobs))
+    merged = []
+    for name in names:
+        ps = [p_ for p_, j_ in zip(parts, jobs) if j_[0] == name]
+        m = dict(ps[0])
+        if len(ps) > 1:
+            m['evaluations'] = sum(p_.get('evaluations', 0) for p_ in ps); m['distinct_nontrivial'] = sum(p_.get('distinct_nontrivial', 0) for p_ in ps)
+            m['samples'] = [x for p_ in ps for x in p_.get('samples', [])][:5]
+            seen_, fs = set(), []
+            for p_ in ps:
+                for f_ in p_.get('failures', []):
+                    if f_['key'] not in seen_: seen_.add(f_['key']); fs.append(f_)
+            m['failures'] = fs[:40]; m['wall_s'] = max(p_.get('wall_s', 0) for p_ in ps); m['shards'] = len(ps)
+            if any(p_.get('crashed') for p_ in ps): m['crashed'] = True; m['detail'] = ' | '.join(str(p_.get('detail', ''))[-800:] for p_ in ps if p_.get('crashed'))
+        merged.append(m)
+    return merged
 
 
 def replay(path):
